@@ -479,7 +479,7 @@ func c06Run(c *engine.Ctx) {
 		for _, n1 := range runLens {
 			for _, n2 := range runLens {
 				for _, tail := range tails {
-					for _, pre := range []string{"", "POINT (1 2)\n", "POINT (1 2) "} {
+					for _, pre := range []string{"", "POINT (1 2)\n", "POINT (1 2) ", "POINT (1 2)\r\n"} {
 						c06Exec(c, c06Case{Text: pre + strings.Repeat(runJobs[i].b1, n1) + strings.Repeat(runJobs[i].b2, n2) + tail})
 						c.Count("evaluations", 1)
 						c.Count("long_run_strings", 1)
@@ -552,7 +552,7 @@ func c06Run(c *engine.Ctx) {
 	// into a line
 	{
 		alpha3 := c06Alphabet(3)
-		seps := []string{"\n", strings.Repeat(" ", 37), "\n" + strings.Repeat(" ", 45), "\t\r\n"}
+		seps := []string{"\n", strings.Repeat(" ", 37), "\n" + strings.Repeat(" ", 45), "\t\r\n", "\r\n" + strings.Repeat(" ", 45), "\r" + strings.Repeat(" ", 33)}
 		var rec func(seq []string, d int)
 		rec = func(seq []string, d int) {
 			if len(seq) > 0 {
